@@ -285,7 +285,7 @@ pub fn case(seed: u64, idx: u64, out: &Path, verbose: bool, force_variant: Optio
     try_store_keys(&mut p, &mut r);
     let in_place = p.loaded_from.is_some() && r.chance(1, 3);
     let prior = if in_place { Prior::Absent } else { prior_for(idx / 3) };
-    let target_rel: Vec<String> = if in_place { split_rel("src.ufo") } else { split_rel("zone/t.ufo") };
+    let target_rel: Vec<String> = if in_place { split_rel("src.ufo") } else { split_rel(prior.target()) };
     if !in_place {
         make_prior(&sb.join(target_rel.join("/")), prior, &mut r);
     }
@@ -297,7 +297,7 @@ pub fn case(seed: u64, idx: u64, out: &Path, verbose: bool, force_variant: Optio
     let mut fail_opt: Vec<String> = vec![];
     let saved = run.obs.1 == "Saved";
     // a directory (or nothing) at the target must not influence whether the save succeeds
-    if saved != run.ref_ok && prior != Prior::PlainFile {
+    if saved != run.ref_ok && !prior.blocks_save() {
         fail_tree.push(format!("save to the target: {}, save of the same font to a fresh path: {}", run.obs.1, if run.ref_ok { "Saved" } else { "failed" }));
     }
     let frame_before = outside(&run.before, &troot);
